@@ -9,7 +9,7 @@
 (3) Profile independence: the MIR of an overflow-checked debug build and of a `-C overflow-checks=off -C debug-assertions=off` build must be
     identical after removing the overflow assertions - no `debug_assert!`, no `cfg!(debug_assertions)`, no profile-dependent code.
 """
-from interp import site_key
+from interp import site_key, short_fn, entry_label
 import itertools
 import re
 import collections
@@ -204,7 +204,7 @@ def sweep_function(ctx, prog, path, body, n=None, budget_cells=700):
                             '%s at %s: reached with every input of cell %s of %s%s; the operation does not return normally%s'
                             % (out.value, out.where, str(cell).replace(' ', '')[:120], path, (' [N=%d]' % n) if n else '',
                                '' if site[1] == 'explicit' else ' in an overflow-checked build'),
-                            {'entry': path, 'cell': str(cell), 'N': n})
+                            {'entry': path, 'cell': str(cell), 'N': n}, alt=('PANIC@', short_fn(path), site_key(site)[1]))
             else:
                 ctx.finding('PANIC', path, 'panic', '%s at %s on cell %s' % (out.value, out.where, str(cell)[:120]))
         elif out.kind == 'budget':
